@@ -141,35 +141,41 @@ def defExprs (args : Expr) (decos returns : List Expr) : List Expr :=
   | _ => decos ++ returns
 
 mutual
-/-- The units made by the lambdas inside an expression: the body of each lambda. -/
-def unitsE (e : Expr) : List Unit :=
+/-- The units made by the lambdas inside an expression: the body of each lambda.
+    `hid`: iteration variables of the comprehensions enclosing the lambda (they are the comprehension's). -/
+def unitsE (hid : List String) (e : Expr) : List Unit :=
   match e with
   | .name .. | .const .. | .noneMarker => []
-  | .attr _ v _ _ => unitsE v
-  | .subscript _ v s _ => unitsE v ++ unitsE s
-  | .call _ f as ks => unitsE f ++ unitsEs as ++ unitsEs ks
-  | .keyword _ _ _ v => unitsE v
-  | .boolop _ _ vs => unitsEs vs
-  | .unary _ _ x => unitsE x
-  | .binop _ _ l r => unitsE l ++ unitsE r
-  | .compare _ l _ cs => unitsE l ++ unitsEs cs
-  | .ifexp _ t b o => unitsE t ++ unitsE b ++ unitsE o
+  | .attr _ v _ _ => unitsE hid v
+  | .subscript _ v s _ => unitsE hid v ++ unitsE hid s
+  | .call _ f as ks => unitsE hid f ++ unitsEs hid as ++ unitsEs hid ks
+  | .keyword _ _ _ v => unitsE hid v
+  | .boolop _ _ vs => unitsEs hid vs
+  | .unary _ _ x => unitsE hid x
+  | .binop _ _ l r => unitsE hid l ++ unitsE hid r
+  | .compare _ l _ cs => unitsE hid l ++ unitsEs hid cs
+  | .ifexp _ t b o => unitsE hid t ++ unitsE hid b ++ unitsE hid o
   | .lambda _ args body =>
-      { id := body.id, key := .scope, reads := readsE [] body, writes := writesE [] body } :: (unitsE args ++ unitsE body)
-  | .seq _ _ es _ => unitsEs es
-  | .starred _ v _ => unitsE v
-  | .namedexpr _ t v => unitsE t ++ unitsE v
-  | .comp _ _ es gs => unitsEs es ++ unitsEs gs
-  | .comprehension _ t it ifs _ => unitsE t ++ unitsE it ++ unitsEs ifs
+      { id := body.id, key := .scope, reads := readsE hid body, writes := writesE hid body } :: (unitsE hid args ++ unitsE hid body)
+  | .seq _ _ es _ => unitsEs hid es
+  | .starred _ v _ => unitsE hid v
+  | .namedexpr _ t v => unitsE hid t ++ unitsE hid v
+  | .comp _ _ es gs =>
+      match gs with
+      | .comprehension _ t it ifs _ :: rest =>
+          let hid' := compTargets gs ++ hid
+          unitsE hid it ++ unitsE hid' t ++ unitsEs hid' ifs ++ unitsEs hid' rest ++ unitsEs hid' es
+      | _ => []
+  | .comprehension _ t it ifs _ => unitsE hid it ++ unitsE hid t ++ unitsEs hid ifs
   | .arguments _ po ar va ko kd kw df =>
-      unitsEs po ++ unitsEs ar ++ unitsEs va ++ unitsEs ko ++ unitsEs kd ++ unitsEs kw ++ unitsEs df
-  | .arg _ _ an => unitsEs an
-  | .withitem _ c v => unitsE c ++ unitsEs v
-  | .other _ _ _ kids => unitsEs kids
-def unitsEs (es : List Expr) : List Unit :=
+      unitsEs hid po ++ unitsEs hid ar ++ unitsEs hid va ++ unitsEs hid ko ++ unitsEs hid kd ++ unitsEs hid kw ++ unitsEs hid df
+  | .arg _ _ an => unitsEs hid an
+  | .withitem _ c v => unitsE hid c ++ unitsEs hid v
+  | .other _ _ _ kids => unitsEs hid kids
+def unitsEs (hid : List String) (es : List Expr) : List Unit :=
   match es with
   | [] => []
-  | e :: rest => unitsE e ++ unitsEs rest
+  | e :: rest => unitsE hid e ++ unitsEs hid rest
 end
 
 def aliasName (a : String × String) : String :=
@@ -183,31 +189,31 @@ mutual
 def unitsS (s : Stmt) : List Unit :=
   match s with
   | .functionDef i name args body decos returns _ =>
-      simpleUnit i (defExprs args decos returns) [] [name] :: (unitsE args ++ unitsEs decos ++ unitsEs returns ++ unitsSs body)
+      simpleUnit i (defExprs args decos returns) [] [name] :: (unitsE [] args ++ unitsEs [] decos ++ unitsEs [] returns ++ unitsSs body)
   | .classDef i name bases kws body decos =>
-      simpleUnit i (decos ++ bases ++ kws) [] [name] :: (unitsEs decos ++ unitsEs bases ++ unitsEs kws ++ unitsSs body)
-  | .ret i v => simpleUnit i v :: unitsEs v
-  | .delete i ts => simpleUnit i ts :: unitsEs ts
-  | .assign i ts v => simpleUnit i (ts ++ [v]) :: (unitsEs ts ++ unitsE v)
-  | .augAssign i t _ v => simpleUnit i [t, v] (targetNames t) :: (unitsE t ++ unitsE v)
-  | .annAssign i t an v _ => simpleUnit i ([t, an] ++ v) :: (unitsE t ++ unitsE an ++ unitsEs v)
+      simpleUnit i (decos ++ bases ++ kws) [] [name] :: (unitsEs [] decos ++ unitsEs [] bases ++ unitsEs [] kws ++ unitsSs body)
+  | .ret i v => simpleUnit i v :: unitsEs [] v
+  | .delete i ts => simpleUnit i ts :: unitsEs [] ts
+  | .assign i ts v => simpleUnit i (ts ++ [v]) :: (unitsEs [] ts ++ unitsE [] v)
+  | .augAssign i t _ v => simpleUnit i [t, v] (targetNames t) :: (unitsE [] t ++ unitsE [] v)
+  | .annAssign i t an v _ => simpleUnit i ([t, an] ++ v) :: (unitsE [] t ++ unitsE [] an ++ unitsEs [] v)
   | .for_ i t it body orelse _ _ =>
       simpleUnit it.id [it] :: { id := i, key := .iterate, reads := readsE [] t, writes := writesE [] t }
-        :: (unitsE t ++ unitsE it ++ unitsSs body ++ unitsSs orelse)
-  | .while_ _ t body orelse => simpleUnit t.id [t] :: (unitsE t ++ unitsSs body ++ unitsSs orelse)
-  | .if_ _ t body orelse => simpleUnit t.id [t] :: (unitsE t ++ unitsSs body ++ unitsSs orelse)
-  | .with_ _ items body _ => (items.map fun it => simpleUnit it.id [it]) ++ unitsEs items ++ unitsSs body
-  | .raise i e c => simpleUnit i (e ++ c) :: (unitsEs e ++ unitsEs c)
+        :: (unitsE [] t ++ unitsE [] it ++ unitsSs body ++ unitsSs orelse)
+  | .while_ _ t body orelse => simpleUnit t.id [t] :: (unitsE [] t ++ unitsSs body ++ unitsSs orelse)
+  | .if_ _ t body orelse => simpleUnit t.id [t] :: (unitsE [] t ++ unitsSs body ++ unitsSs orelse)
+  | .with_ _ items body _ => (items.map fun it => simpleUnit it.id [it]) ++ unitsEs [] items ++ unitsSs body
+  | .raise i e c => simpleUnit i (e ++ c) :: (unitsEs [] e ++ unitsEs [] c)
   | .try_ _ b h o f => unitsSs b ++ unitsSs h ++ unitsSs o ++ unitsSs f
-  | .handler _ ty _ b => unitsEs ty ++ unitsSs b
-  | .assert_ i t m => simpleUnit i (t :: m) :: (unitsE t ++ unitsEs m)
+  | .handler _ ty _ b => unitsEs [] ty ++ unitsSs b
+  | .assert_ i t m => simpleUnit i (t :: m) :: (unitsE [] t ++ unitsEs [] m)
   | .import_ i names => [{ id := i, key := .scope, reads := [], writes := names.map aliasName }]
   | .importFrom i _ names _ => [{ id := i, key := .scope, reads := [], writes := names.map aliasName }]
   | .global i _ => [{ id := i, key := .scope, reads := [], writes := [] }]
   | .nonlocal i _ => [{ id := i, key := .scope, reads := [], writes := [] }]
-  | .expr i v => simpleUnit i [v] :: unitsE v
+  | .expr i v => simpleUnit i [v] :: unitsE [] v
   | .pass _ | .break_ _ | .continue_ _ => []
-  | .other _ _ es bs => unitsEs es ++ unitsSs bs
+  | .other _ _ es bs => unitsEs [] es ++ unitsSs bs
 def unitsSs (ss : List Stmt) : List Unit :=
   match ss with
   | [] => []
